@@ -11,6 +11,7 @@ two sided: what may be reported / what must be found).
 import numpy as np
 
 from ..models.peaks import Oracle
+from .. import readers
 
 PROPERTY = "C08"
 NUM = 8
@@ -28,7 +29,7 @@ ASSUMPTIONS = [
 NOT_REACHED = ["non-increasing frequency grids", "find_peaks_kwargs with prominence/width", "grids above 4200 points"]
 BUDGET = {"quick": dict(cases=5000, seconds=60, shards=4),
           "thorough": dict(cases=300000, seconds=600, shards=16)}
-REQUIRED = ["mon:query-leaves-peak-state-unchanged", "mon:cached-peak-matches-stored-range", "mon:mean-curve-peak", "mon:nan-peak-not-in-statistics",
+REQUIRED = ["arrays_handed_out_and_edited", "mon:query-leaves-peak-state-unchanged", "mon:cached-peak-matches-stored-range", "mon:mean-curve-peak", "mon:nan-peak-not-in-statistics",
             "invariant_evaluations"]
 
 CTX = [None]
@@ -289,6 +290,14 @@ def _mean_peak_check(ctx, obj, label, f, search_range, dists=("lognormal", "norm
     _mean_peak_check_inner(ctx, obj, label, f, search_range, dists)
     ctx.check(_peak_state(obj) == st0, "query-leaves-peak-state-unchanged",
               f"{label}: mean_curve / mean_curve_peak queries changed the cached peaks, masks or search range")
+    # the peak vectors and curves handed out are the caller's (sorted, converted to period, normalised in place);
+    # the cached peaks still are the ones of the stored range afterwards and the accessors answer as before
+    changed, second, edited = readers.read_then_scribble(obj, dists[0], rng=True)
+    ctx.count("arrays_handed_out_and_edited", edited)
+    ctx.check(_peak_state(obj) == st0 and not changed and not second, "query-leaves-peak-state-unchanged",
+              f"{label}: editing the arrays returned by peak_frequencies / peak_amplitudes / mean_curve / ... changed the "
+              "object's cached peaks, masks, curves or its later answers", mechanism="returned-array-shares-memory-with-object",
+              state_changed=changed[:4], second_answer_differs=second[:4])
 
 
 def _mean_peak_check_inner(ctx, obj, label, f, search_range, dists=("lognormal", "normal")):
